@@ -15,9 +15,9 @@ RULE = ("synthetic in-memory DICOM series: S<=4 x T<=3 x V<=3 grids (thorough: S
         "directions; explicit time / vector / both orderings (plain key, DicomOrdering with abs_ordering or abs_as_str, "
         "staggered time values that straddle volume boundaries) or guessed key with decoy keys; default extractor or a "
         "hand-built meta argument; per-file BitsStored / PixelRepresentation / pixel range / AcquisitionTime presence "
-        "varied; x 28 defect classes (none, drop 1 / k files, drop a volume, drop a slice position, duplicate, misfiled "
+        "varied; x 29 defect classes (none, drop 1 / k files, drop a volume, drop a slice position, duplicate, misfiled "
         "duplicate, tie straddling a volume boundary, irregular gap 0.8..25 %, Rows / Columns +1, PixelSpacing and "
-        "orientation perturbed below / above 5e-5, no pixel data, colliding file (also on the cell with ordinate 0 / index 0 / no ordinate, and one for every time and vector value), missing ordering key, extra slice "
+        "orientation perturbed below / above 5e-5, no pixel data, PixelSpacing / orientation creeping along a chain of files by 0.29..0.8 x tolerance per step (added in chain order, reversed, or at random), colliding file (also on the cell with ordinate 0 / index 0 / no ordinate, and one for every time and vector value), missing ordering key, extra slice "
         "position, vector value moved for a whole volume, vector values on unequal numbers of whole volumes, files "
         "moved between vector components, positions swapped between volumes, ordinate not in abs_ordering), 15 % with "
         "a second defect on top, x random add order, 30 % with queries interleaved between the adds, x the queries "
@@ -47,6 +47,9 @@ ASSUMPTIONS = [
     "exclude the TypeError case",
     "only public results are observed; a refused add leaving the stack unchanged is observed through the later "
     "queries (they are judged on the files accepted so far)",
+    "files sharing an ImagePositionPatient share their orientation exactly whenever a query is made (a below-"
+    "tolerance orientation difference at one position gives two 'slices' 1e-5 apart with a zero slice column; "
+    "observation reported, not a finding): the orient_lo defect is only queried after all files were added",
     "time ordinates are not required to be uniform inside a volume: the time coordinate of a file is its volume's "
     "rank in the sorted order (DESIGN C11 definition note)",
 ]
@@ -75,6 +78,17 @@ def gen_cases(rng, tier):
                 cfg['T'] = max(cfg['T'], 2)
             if cfg['time_order'].get('abs') is not None:
                 cfg['time_order'] = {'key': cfg['time_order']['key'], 'abs': None}
+        if defect == 'creep':
+            cfg = L.rand_config(rng, tier, want=rng.choice(['none', 'none', 'time']))
+            cfg['S'] = rng.randint(3, 10 if tier == 'quick' else 30)
+            cfg['T'] = 1 if cfg['mode'] == 'none' else rng.choice([1, 2])
+            cfg['V'] = 1
+            if rng.random() < 0.5:
+                cfg['orient'] = 'ax'
+            if cfg['time_order'] is not None:
+                cfg['time_order'] = {'key': cfg['time_order']['key'], 'abs': None}
+                if callable(cfg['tagrules'].get(cfg['time_order']['key'])):
+                    cfg['tagrules'][cfg['time_order']['key']] = 't'
         if defect == 'vol_count':
             cfg = L.vol_count_config(rng, tier)
         if defect == 'pos_swap':
@@ -103,7 +117,7 @@ def gen_cases(rng, tier):
                 note['second'] = note2
             except (IndexError, ValueError, KeyError):
                 pass
-        order = L.add_order(rng, files)
+        order = L.add_order(rng, files, note.get('order'))
         qs = [list(q) for q in QUERIES]
         if rng.random() < 0.4:
             qs.append(['wrapper', rng.choice(['', 'LAS', 'RPI'])])
@@ -113,6 +127,11 @@ def gen_cases(rng, tier):
                 q[1:] = [rng.choice(['', 'RAS', 'LPI', None]), rng.random() < 0.5]
         ops = []
         early = rng.random() < 0.3            # histories: queries while files are still being added
+        if defect == 'orient_lo':
+            # two files with IDENTICAL ImagePositionPatient whose orientations differ within tolerance get slice
+            # indicators 1e-5 apart and would pass, in a partial history, as two slices with a zero slice column
+            # (reorder_voxels then raises ValueError): outside the modelled geometry, see ASSUMPTIONS
+            early = False
         for i in order:
             ops.append(['add', i])
             if early and rng.random() < 0.2:
